@@ -60,6 +60,11 @@ func TestC12(t *testing.T) {
 		// a canary of one ExtendedDaemonSet next to a rollout of another one in the SAME namespace (canary labels, clean-up window)
 		{name: "S6-canary-and-neighbour-same-namespace", nodes: []string{"n1", "n2"}, eds: canary, extra: []client.Object{w.NewEDS("ns", "bar", "A", w.WithFrequency(0))},
 			first: both("ns/bar"), alpha: &w.Alpha{Kubectl: []string{"canary-validate"}}, budget: b},
+		// a legal but misleading template: the pod template of ns/foo carries the name label of its neighbour ns/bar
+		// (e.g. copied from one of bar's pods)
+		{name: "S6-template-carries-neighbours-label", nodes: nodes, extra: []client.Object{w.NewEDS("ns", "bar", "A", w.WithFrequency(0))},
+			tpls:  []string{"A", "B", "B+label:" + v1.ExtendedDaemonSetNameLabelKey + "=bar"},
+			first: []w.Event{evb("setTemplate", edsKey, "B+label:"+v1.ExtendedDaemonSetNameLabelKey+"=bar"), evb("setTemplate", "ns/bar", "B")}, alpha: dev(), budget: b},
 		// PodTemplate objects of namesakes
 		{name: "S6-podtemplates", nodes: []string{"n1"}, extra: []client.Object{w.NewEDS("other", "foo", "A", w.WithFrequency(0))},
 			first: both("other/foo")[:1], alpha: &w.Alpha{PT: true}, budget: 0},
